@@ -159,7 +159,7 @@ impl Transport {
 //@@ subst `use std::pin::Pin;` => `` rule=R6
 //@@ subst `Pin::new(&mut self.framed_write)` => `&mut self.framed_write` rule=R3
 //@@ subst `amqp::FrameEncoder::new(` => `FrameEncoder::new(` rule=R11
-//@@ subst `.map_err(Into::into)` => `.map_err(|e: IoError| -> (o: Error) ensures o == Error::Io(e) { Error::Io(e) })` rule=R17
+//@@ subst `.map_err(Into::into)` => `.map_err(|e: IoError| -> (o: Error) ensures o == Error::Io(e) { Error::Io(e) })` rule=R17 unless `\.map_err\(`
 //@@ subst `matches!(item.body, amqp::FrameBody::Transfer { .. })` => `frame_is_transfer(&item)` rule=optional-R11
 //@@ spec
     requires
